@@ -9,6 +9,7 @@ pub mod c11;
 pub mod c12;
 pub mod c13;
 pub mod c15;
+pub mod c16;
 
 use crate::engine::Ctx;
 
@@ -33,6 +34,7 @@ pub fn dispatch(ctx: &Ctx, replay: Option<&str>) -> i32 {
         "C12" => p!(c12),
         "C13" => p!(c13),
         "C15" => p!(c15),
+        "C16" => p!(c16),
         other => {
             eprintln!("MACHINERY: unknown property {}", other);
             2
